@@ -142,6 +142,14 @@ func retentionTable(w *World, r *Report) (ro *Roles, dec *ssa.Function, decCall 
 									got := p.Ret[0] == removeRet
 									var want bool
 									switch {
+									case de == 0 && s == 1 && c == 0 && x == 0:
+										// a running job of a pipeline that is no longer defined: C12 only says such jobs are purged (at once
+										// or once they ended — either is accepted there); C01 needs it kept while it runs — the pipeline can
+										// be defined again by the next reload, and the admission count ranges over this list (finding D10)
+										if r.Prop != "C01" {
+											continue
+										}
+										want = false
 									case de == 0:
 										want = true
 									case s == 0 && x == 0:
@@ -167,7 +175,7 @@ func retentionTable(w *World, r *Report) (ro *Roles, dec *ssa.Function, decCall 
 	}
 	r.Count("valuations", n)
 	r.Check(bad == 0, "table.retention", fname+": decision table", w.Pos(dec.Pos()),
-		fmt.Sprintf("%d valuations agree with: undefined pipeline → remove; waiting/running → keep; else remove ⇔ (period>0 ∧ age>period) ∨ (count>0 ∧ rank≥count)", n),
+		fmt.Sprintf("%d valuations agree with: undefined pipeline → remove (a still running job: kept, required for C01, either way elsewhere); waiting/running → keep; else remove ⇔ (period>0 ∧ age>period) ∨ (count>0 ∧ rank≥count)", n),
 		fmt.Sprintf("%d of %d valuations disagree with the stated retention table; first: %s", bad, n, first))
 
 	return ro, dec, decCall, &retInfo{jobArg: paramIdxOf(jobPrm), idxArg: paramIdxOf(idxPrm), removeRet: removeRet, region: region}
